@@ -18,7 +18,7 @@ use self::{
 
 use super::utils::{self, LineNumber};
 
-#[derive(Clone, Copy, Debug, Hash, PartialEq, Eq)]
+#[derive(Clone, Copy, Debug, Hash, PartialEq, Eq, PartialOrd, Ord)]
 pub enum QualityAssurance {
     ConstructorOrder,
     PrivateVarsLeadingUnderscore,
